@@ -168,3 +168,31 @@ Theorem C08_F5_nodecode_refuted :
   decode_keep_slash "x$$$escaped-slash$$$y" = "x$$$escaped-slash$$$y".
 Proof. exact F5_nodecode_refuted. Qed.
 Print Assumptions C08_F5_nodecode_refuted.
+
+(** every pair of spellings the invariance theorem speaks about is recognised as
+    equivalent by the evaluator of the correspondence stream *)
+Theorem C08_reenc_checked_by_evaluator : forall s s', reenc s s' -> equiv_paths s s' = true.
+Proof. exact reenc_equiv_paths. Qed.
+Print Assumptions C08_reenc_checked_by_evaluator.
+
+(** `off`: an accepted request has no encoded slash, and every captured value is
+    a piece of the request path, decoded — outside C08-F2, C08-F4, C08-F5 *)
+Theorem C08_off_captures_decoded : forall fx rules dflt host q p rid cs up,
+  p <> "*" ->
+  guard_F4 p = false ->
+  (fx2 fx = true \/ contains "%2f" p = false) ->
+  guard_F5 p = false ->
+  (forall r, In r rules -> r_id r = rid -> r_setting r = Off) ->
+  serve fx rules dflt host p q = Accepted rid false cs up ->
+  enc_slash p = false /\
+  Forall (fun kv => exists v, piece_of p v /\ snd kv = unescape_or_empty v) cs.
+Proof. exact off_captures_decoded. Qed.
+Print Assumptions C08_off_captures_decoded.
+
+(** a path with a malformed escape is refused with 400 before heimdall sees it
+    (so the relation [reenc], which holds between well-formed paths only, leaves
+    nothing out) *)
+Theorem C08_malformed_rejected : forall fx rules dflt host q p,
+  unescape p = None -> serve fx rules dflt host p q = BadRequest.
+Proof. exact malformed_rejected. Qed.
+Print Assumptions C08_malformed_rejected.
